@@ -30,7 +30,8 @@ inductive Ev where
   | addOk (c : Nat)
   | addRej (c : Nat)
   | disp                          -- the wait call returned > 0: a dispatch begins
-  | sleep                         -- the wait call would block
+  | sleep (pending : Bool)        -- the wait call would block; pending = some registered
+                                  -- context is readable at that moment (input would be lost)
   | read (c n : Nat) (ended : Bool)   -- cb_read on c: n bytes offered; ended = EOF/error seen
   | close (c : Nat)
   | wake
@@ -200,7 +201,7 @@ def handleWake (sc : Script) (s : St) : St :=
 another thread -/
 def idle (sc : Script) (s : St) : St :=
   let k := s.nIdle
-  let s := emit .sleep { s with nIdle := k + 1 }
+  let s := emit (.sleep (s.ctxList.any (fun c => (s.ds c).readable))) { s with nIdle := k + 1 }
   if k < sc.nIdle then runActs (sc.onIdle k) s else act .xexit s
 
 /-! ## poll back-end -/
@@ -212,15 +213,41 @@ def pollQuery (s : St) : St :=
 def pollCount (s : St) : Nat :=
   (s.ptab.filter (fun e => e.rev.any)).length + (if s.psig then 1 else 0)
 
+/-- swap-with-last removal of slot `i` of a table (`nodes[i] = nodes[nfd-1]; memcpy(&fds[i],
+&fds[nfd-1]); nodes[nfd-1] = NULL; --nfd`) -/
+def swapRemove {α : Type} (l : List α) (i : Nat) : List α :=
+  (if i ≠ l.length - 1 then
+    match l[l.length - 1]? with
+    | some x => l.set i x
+    | none => l
+   else l).dropLast
+
 /-- unregistration: linked-list remove + swap-with-last in `fds[]/nodes[]` -/
 def pollRemove (i : Nat) (e : PEnt) (s : St) : St :=
-  let last := s.ptab.length - 1
-  let t := if i ≠ last then
-             match s.ptab[last]? with
-             | some l => s.ptab.set i l
-             | none => s.ptab
-           else s.ptab
-  { s with ctxList := s.ctxList.erase e.node, ptab := t.dropLast }
+  { s with ctxList := s.ctxList.erase e.node, ptab := swapRemove s.ptab i }
+
+/-- the `--n` accounting: the fixed code counts a ready descriptor once; the original code
+counts `POLLIN` and `POLLHUP|POLLERR` separately (fixes/C13-poll-ready-count.patch) -/
+def pollDec (legacy : Bool) (e : PEnt) (n : Int) : Int :=
+  if legacy then
+    (if e.rev.inn then n - 1 else n) - (if e.rev.hup || e.rev.err then 1 else 0)
+  else if e.rev.any then n - 1 else n
+
+/-- `if (fds[i].revents & POLLIN) cb_read(...)` -/
+def pollRead (sc : Script) (e : PEnt) (s : St) : St :=
+  if e.rev.inn then cbRead sc e.node s else s
+
+/-- `if (fds[i].revents & (POLLHUP | POLLERR)) set_flag(CLOSED)` -/
+def pollFlag (e : PEnt) (s : St) : St :=
+  if e.rev.hup || e.rev.err then { s with flag := upd s.flag e.node true } else s
+
+/-- `if (ctx->flags & CLOSED) { cb_close; unregister }` -/
+def pollFinish (sc : Script) (i : Nat) (e : PEnt) (s : St) : St :=
+  if s.flag e.node then pollRemove i e (cbClose sc e.node s) else s
+
+/-- one iteration of the scan for table entry `i` (C index `i+1`) -/
+def pollVisit (sc : Script) (i : Nat) (e : PEnt) (s : St) : St :=
+  pollFinish sc i e (pollFlag e (pollRead sc e s))
 
 /-- the body of the `for (i = nfd-1; i >= 0; --i)` loop; `i` = number of table entries
 still to visit (C index `i`), `n` = remaining ready count -/
@@ -230,13 +257,8 @@ def pollScan (sc : Script) : Nat → Int → St → St
     match s.ptab[i]? with
     | none => { s with oob := true }
     | some e =>
-      let c := e.node
-      let n := if s.legacy then
-                 (if e.rev.inn then n - 1 else n) - (if e.rev.hup || e.rev.err then 1 else 0)
-               else if e.rev.any then n - 1 else n
-      let s := if e.rev.inn then cbRead sc c s else s
-      let s := if e.rev.hup || e.rev.err then { s with flag := upd s.flag c true } else s
-      let s := if s.flag c then pollRemove i e (cbClose sc c s) else s
+      let n := pollDec s.legacy e n
+      let s := pollVisit sc i e s
       if n ≤ 0 then s else pollScan sc i n s
 
 def pollLoop (sc : Script) : Nat → St → St
@@ -259,6 +281,15 @@ def selCount (s : St) : Nat :=
   (s.allset.filter (fun c => decide (fdOf c ≤ s.nfds) && (s.ds c).readable)).length +
     (if s.rsig then 1 else 0)
 
+/-- `if (FD_ISSET(ctx->fd, &rset) && cb_read) cb_read(...)` -/
+def selRead (sc : Script) (c : Nat) (s : St) : St :=
+  if s.rset.contains c then cbRead sc c s else s
+
+/-- `cb_close; node = muggle_linked_list_remove(node)` -/
+def selClose (sc : Script) (i c : Nat) (s : St) : St :=
+  let s := cbClose sc c s
+  { s with ctxList := s.ctxList.eraseIdx i }
+
 /-- scan of `ctx_list` by position; removal of the current node keeps the position,
 appends by callbacks are reached later in the same scan -/
 def selScan (sc : Script) : Nat → Nat → St → St
@@ -267,10 +298,8 @@ def selScan (sc : Script) : Nat → Nat → St → St
     match s.ctxList[i]? with
     | none => s
     | some c =>
-      let s := if s.rset.contains c then cbRead sc c s else s
-      if s.flag c then
-        let s := cbClose sc c s
-        selScan sc f i { s with ctxList := s.ctxList.eraseIdx i }
+      let s := selRead sc c s
+      if s.flag c then selScan sc f i (selClose sc i c s)
       else selScan sc f (i + 1) (selSetFd c s)
 
 def selDispatch (sc : Script) (s : St) : St :=
@@ -309,17 +338,25 @@ def epCollect (s : St) : List Src → Nat → List (Src × Mask) × List Src
 def epDel (c : Nat) (s : St) : St :=
   { s with epReg := s.epReg.erase c, armed := s.armed.erase (.ctx c) }
 
+/-- `if (events & EPOLLIN) cb_read(...) else if (events & (EPOLLERR|EPOLLHUP)) set_flag(CLOSED)` -/
+def epRead (sc : Script) (c : Nat) (mk : Mask) (s : St) : St :=
+  if mk.inn then cbRead sc c s
+  else if mk.err || mk.hup then { s with flag := upd s.flag c true } else s
+
+/-- `if (ctx->flags & CLOSED) { epoll_ctl(DEL); cb_close; list remove }` -/
+def epFinish (sc : Script) (c : Nat) (s : St) : St :=
+  if s.flag c then
+    let s := cbClose sc c (epDel c s)
+    { s with ctxList := s.ctxList.erase c }
+  else s
+
+def epVisit (sc : Script) (c : Nat) (mk : Mask) (s : St) : St :=
+  epFinish sc c (epRead sc c mk s)
+
 def epBatch (sc : Script) : List (Src × Mask) → St → St
   | [], s => s
   | (.sig, mk) :: rest, s => epBatch sc rest (if mk.inn then handleWake sc s else s)
-  | (.ctx c, mk) :: rest, s =>
-    let s := if mk.inn then cbRead sc c s
-             else if mk.err || mk.hup then { s with flag := upd s.flag c true } else s
-    let s := if s.flag c then
-               let s := cbClose sc c (epDel c s)
-               { s with ctxList := s.ctxList.erase c }
-             else s
-    epBatch sc rest s
+  | (.ctx c, mk) :: rest, s => epBatch sc rest (epVisit sc c mk s)
 
 def epLoop (sc : Script) : Nat → St → St
   | 0, s => emit .fuel s
@@ -393,23 +430,27 @@ def preOk : Act → Bool
   | .write _ _ | .hclose _ | .pclose _ | .add _ => true
   | _ => false
 
-/-- kernel-only effect of an action -/
-def kact (nds : Nat) (ds : Nat → Desc) : Act → (Nat → Desc)
-  | .write d n => if d < nds && 0 < n then upd ds d ((ds d).write n).1 else ds
-  | .hclose d => if d < nds then upd ds d (ds d).hclose.1 else ds
-  | .pclose d => if d < nds then upd ds d (ds d).pclose.1 else ds
-  | _ => ds
+/-- kernel-only world (a structure, so that the compiled code evaluates each update once) -/
+structure KSt where
+  ds : Nat → Desc
 
-def kacts (nds : Nat) (as : List Act) (ds : Nat → Desc) : Nat → Desc :=
-  as.foldl (kact nds) ds
+/-- kernel-only effect of an action -/
+def kact (nds : Nat) (k : KSt) : Act → KSt
+  | .write d n => if d < nds && 0 < n then ⟨upd k.ds d ((k.ds d).write n).1⟩ else k
+  | .hclose d => if d < nds then ⟨upd k.ds d (k.ds d).hclose.1⟩ else k
+  | .pclose d => if d < nds then ⟨upd k.ds d (k.ds d).pclose.1⟩ else k
+  | _ => k
+
+def kacts (nds : Nat) (as : List Act) (k : KSt) : KSt :=
+  as.foldl (kact nds) k
 
 def idleActs (sc : Script) : List Act := (List.range sc.nIdle).flatMap sc.onIdle
 
 def specOutcome (kinds : List Kind) (pre : List Act) (sc : Script) (c : Nat) : Nat × Fate :=
   let nds := kinds.length
-  let ds := kacts nds (pre ++ idleActs sc) (fun d => { kind := kinds.getD d .pipe })
+  let k := kacts nds (pre ++ idleActs sc) ⟨fun d => { kind := kinds.getD d .pipe }⟩
   if pre.contains (.add c) && decide (c < nds) then
-    ((ds c).arrived, if (ds c).eof then .closed else .cleared)
+    ((k.ds c).arrived, if (k.ds c).eof then .closed else .cleared)
   else (0, .none)
 
 end MgModel.C13
